@@ -102,8 +102,17 @@ func ruleRecState(c *Ctx) {
 			if !ok {
 				return
 			}
-			if name, _ := interpFieldStore(in); name == "fields" || name == "fieldsIsTrueStr" {
-				stores = true
+			if name, val := interpFieldStore(in); name == "fields" || name == "fieldsIsTrueStr" {
+				// clearing the slices (nil, or x[:0]) is a reset, wherever it is done; anything else is an assignment
+				clearing := isNilConst(val)
+				if sl, ok := val.(*ssa.Slice); ok && sl.Low == nil && sl.High != nil {
+					if k, ok := sl.High.(*ssa.Const); ok && k.Value != nil && k.Value.ExactString() == "0" {
+						clearing = true
+					}
+				}
+				if !clearing {
+					stores = true
+				}
 			}
 			if ia, ok := st.Addr.(*ssa.IndexAddr); ok {
 				if n := interpFieldLoad(ia.X); n == "fields" || n == "fieldsIsTrueStr" {
